@@ -31,6 +31,8 @@ func TestMain(m *testing.M) {
 		entry = func(t *testing.T) { code = cmdWorker(t, args[1:]) }
 	case "replay":
 		entry = func(t *testing.T) { code = cmdReplay(t, args[1:]) }
+	case "digest":
+		entry = func(t *testing.T) { code = cmdDigest(t, args[1:]) }
 	case "minimize":
 		entry = func(t *testing.T) { code = cmdMinimize(t, args[1:]) }
 	case "check":
